@@ -51,14 +51,17 @@ structure ShutCase where
   terminate : Bool
   tc : Time
   failIdx : Int
+  /-- solicitations handed over at the stop instant itself: each may or may not be consumed by
+      the scheduler before it sees the cancellation (its answer is never due before the stop) -/
+  atStop : Nat
   lat : List Dur
   adv : AdvCase
 
 def pCase : P ShutCase := do
-  let term ← P.bool; let tc ← P.int; let fi ← P.int
+  let term ← P.bool; let tc ← P.int; let fi ← P.int; let atStop ← P.nat
   let lat ← P.list P.int
   let adv ← Driver.Sched.pAdvCase
-  pure { terminate := term, tc := tc, failIdx := fi, lat := lat, adv := adv }
+  pure { terminate := term, tc := tc, failIdx := fi, atStop := atStop, lat := lat, adv := adv }
 
 def latOf (lat : List Dur) (n : Nat) : Dur := lat.getD n (lat.getLast?.getD 0)
 
